@@ -136,6 +136,37 @@ func xzCases(c *hx.Ctx, seed int64) []xzCase {
 			}
 		}
 	}
+	// (5) ring-wrap family: small dictionaries and look-ahead buffers, inputs several times
+	// longer than the encoder's ring (dictionary + look-ahead + 1) with matches at every
+	// distance around the wrap point; both match finders; written in odd-sized pieces
+	ri := 0
+	for _, d := range []int{4096, 4097, 5000, 6144} {
+		for _, b := range []int{273, 4096} {
+			for m := 0; m < 2; m++ {
+				for _, class := range []string{"zeros", "lowentropy", "periodic", "text", "xx", "alternating"} {
+					ri++
+					if !c.Thorough() && (ri+int(seed))%2 == 0 {
+						continue
+					}
+					n := 3*(d+b+1) + ri%7
+					data := MakeData(class, n, seed+int64(ri))
+					piece := 1 + (ri*997)%(d+b)
+					var parts [][]byte
+					hist := []string{}
+					for o := 0; o < len(data); o += piece {
+						e := o + piece
+						if e > len(data) {
+							e = len(data)
+						}
+						parts = append(parts, data[o:e])
+						hist = append(hist, "W")
+					}
+					cases = append(cases, xzCase{G: XZCfg{LC: 3, LP: 0, PB: 2, DictCap: d, BufSize: b, Check: []int{4, 1, -1}[ri%3], Matcher: m},
+						Hist: append(hist, "C"), Fixed: parts, Tag: "ringwrap"})
+				}
+			}
+		}
+	}
 	return cases
 }
 
